@@ -12,8 +12,8 @@ import subprocess
 import sys
 import time
 
-VERIF = "/verif"
-ENV = dict(os.environ, CARGO_NET_OFFLINE="true")
+VERIF = os.path.dirname(os.path.dirname(os.path.abspath(__file__)))
+ENV = dict(os.environ, CARGO_NET_OFFLINE="true", VERIF_ROOT=VERIF)
 ENV.pop("RUSTFLAGS", None)
 
 
@@ -209,7 +209,7 @@ def main():
                 "trace": {"scenario": v["scenario"], "schedule": v["schedule"]},
                 "minimisation": {"searches": v["minimisation_searches"], "original_scenario": v["original_scenario"], "original_detail": v["original_detail"]},
                 "origin": {"verif_seed": seed, "scenario_index": v["scenario_index"], "scheduler": v["scheduler"]},
-                "replay_cmd": f"/verif/check replay {path}",
+                "replay_cmd": f"{VERIF}/check replay {path}",
             }
         else:
             path = f"{VERIF}/replays/C19-miri-{seed}-{v['miri_seed']}.json"
@@ -219,7 +219,7 @@ def main():
                 "miri_seed": v["miri_seed"], "preemption_rate": v["preemption_rate"], "scenario_seed": v["scenario_seed"],
                 "scenario": v["scenario"], "stdout": v["stdout"], "stderr": v["stderr"],
                 "note": "Miri schedules cannot be minimised; the replay is exact for (miri seed, preemption rate, scenario seed)",
-                "replay_cmd": f"/verif/check replay {path}",
+                "replay_cmd": f"{VERIF}/check replay {path}",
             }
         json.dump(doc, open(path, "w"), indent=1)
         print(f"violation class={v['class']} engine={engine}-sim")
